@@ -94,7 +94,14 @@ func (r *ring) NextWriteCmd() (one Completed, multi []Completed, ch chan RedisRe
 	r.read1++
 	p := r.read1 & r.mask
 	n := &r.store[p]
-	n.c1.L.Lock()
+	// The reader keeps the node locked from NextResultCh to FinishResult. When the ring is full the next
+	// node to write can be the one the reader is still working on, and waiting for it here would leave the
+	// commands already written unflushed while the reader waits for their replies. Report "nothing to write"
+	// instead, so that the writer flushes and then waits in WaitForWrite.
+	if !n.c1.L.(*sync.Mutex).TryLock() {
+		r.read1--
+		return
+	}
 	if n.mark == 1 {
 		one, multi, ch = n.one, n.multi, n.ch
 		n.mark = 2
